@@ -26,7 +26,11 @@ def run(functions, timeout=20, root="/repo"):
                 continue
             open(p, "w").write(s.replace(m["old"], m["new"], 1))
             verify._cache.pop(d, None)
-            res = verify.verify_many([m["function"]], timeout=timeout, root=d)
+            os.environ["PYVC_NO_RETRY"] = "1"      # a mutant is expected to leave obligations undecided: no second, longer attempt
+            try:
+                res = verify.verify_many([m["function"]], timeout=timeout, root=d)
+            finally:
+                os.environ.pop("PYVC_NO_RETRY", None)
             verify._cache.pop(d, None)
             bad = [o["name"] for r in res for o in r["obligations"] if o["status"] != "discharged"]
             und = [r["undecided"] for r in res if r["undecided"]]
